@@ -329,7 +329,8 @@ def run_tunnel(script, reuse=0, auto=True):
     def hb_policy(n, body):
         n -= box.get("offset", 10 ** 9)
         o = script[n] if 0 <= n < len(script) else "o"
-        return {"o": "ok", "e": ErrorCode.E_CONNECTION_ID, "s": "silent"}[o]
+        # r: a ConnectionStateResponse whose status octet (0x30) is outside ErrorCode, as raw bytes: not a positive answer
+        return {"o": "ok", "e": ErrorCode.E_CONNECTION_ID, "s": "silent", "r": 0x30}[o]
 
     gw.hb_policy = hb_policy
 
@@ -351,8 +352,12 @@ def run_tunnel(script, reuse=0, auto=True):
                 box["late"] = box.get("late", 0) + 1
             mon.call_start(t)
             hist.append((round(t - box["t0"], 6), o))
-            box["pending"] = o
+            box["pending"] = "s" if o == "r" else o  # an unparsable answer is no answer: the request times out
             box["silent_deadline"] = t + CONNECTIONSTATE_REQUEST_TIMEOUT
+        elif kind == "rx" and typ == "ConnectionStateResponse":
+            box["raw_answer"] = str(info.get("status", "")).startswith("RAW_")
+        elif kind == "rx_done" and typ == "ConnectionStateResponse" and box.get("raw_answer"):
+            box["raw_answers"] = box.get("raw_answers", 0) + 1
         elif kind == "rx_done" and typ == "ConnectionStateResponse":
             o = box.pop("pending", None)
             if o is not None:
@@ -407,6 +412,8 @@ def run_tunnel(script, reuse=0, auto=True):
         mon = loop.run(main(), max_vtime=1e6)
     finally:
         loop.finish()
+    if box.get("raw_answers"):
+        hist.append(("raw_status_answers", box["raw_answers"]))
     if gw.receive_path_exceptions:
         hist.append(("receive_path_exceptions_recorded", [e[2] for e in gw.receive_path_exceptions]))
     return mon, hist, box["losses"], gw.n_hb - box.get("offset", 0), box.get("late", 0)
@@ -439,6 +446,7 @@ def judge_tunnel(ctx, script, reuse=0, auto=True):
     if hist and hist[-1][0] == "receive_path_exceptions_recorded":
         ctx.count("receive_path_exceptions_recorded", len(hist[-1][1]))
     ctx.count("tunnel_connectionstate_requests", n_hb)
+    ctx.count("tunnel_raw_status_answers", sum(v for k, v in hist if k == "raw_status_answers"))
     ctx.count("tunnel_losses_declared", losses)
     ctx.distinct(("tunnel", script, reuse, auto))
     if script in ("ssss", "eseo", "sseso"):
@@ -456,7 +464,7 @@ def judge_tunnel(ctx, script, reuse=0, auto=True):
         ctx.violation(f"tunnel-heartbeat-{mech}", {"part": "tunnel", "script": script, "reuse": reuse, "auto": auto,
                                                     "history": hist, "detail": detail},
                       f"UDPTunnel (auto_reconnect={auto}, {reuse} disconnect()/connect() cycles on the same object before) with "
-                      f"heartbeat answers {script!r} (o=ok e=error status s=silent): {mech}; history {hist[-14:]}")
+                      f"heartbeat answers {script!r} (o=ok e=error status s=silent r=raw status octet 0x30): {mech}; history {hist[-14:]}")
 
 
 # ---------------------------------------------------------------------------
@@ -469,10 +477,10 @@ def run(ctx):
     n_tunnel = ctx.scale(5, 8)
     ctx.rule = (f"all outcome strings over {{S,F,N,R,X}} of length <= {n} (one run per distinct consumed prefix), each string of "
                 f"length <= {n_stop} also with stop() at every call index, each of length <= {n_restart} that reaches on_failure also "
-                f"with on_failure restarting the heartbeat; real UDPTunnel with gateway answers over {{ok,error,silent}} of length <= "
+                f"with on_failure restarting the heartbeat; real UDPTunnel with gateway answers over {{ok,error,silent}} (+ raw status octet outside ErrorCode up to length max(4, bound-2)) of length <= "
                 f"{n_tunnel}; distinct = (variant, string, stop index)")
     ctx.require("connectionstate_calls", "on_failure_calls", "runs_plain", "runs_stop", "runs_restart", "runs_restart+stop", "runs_restart+start", "runs_start",
-                "tunnel_runs_reused_object", "tunnel_runs_reused_object_noauto", "tunnel_runs",
+                "tunnel_runs_reused_object", "tunnel_runs_reused_object_noauto", "tunnel_raw_status_answers", "tunnel_runs",
                 "tunnel_losses_declared", "stopped_runs")
     loop = new_loop()
     idx = 0
@@ -516,7 +524,7 @@ def run(ctx):
 
     idx = 0
     for length in range(1, n_tunnel + 1):
-        for tup in itertools.product("oes", repeat=length):
+        for tup in itertools.product("oesr" if length <= max(4, n_tunnel - 2) else "oes", repeat=length):
             idx += 1
             if not ctx.mine(idx):
                 continue
